@@ -122,8 +122,9 @@ let read_v2pkt t : v2pkt =
     let keys = next_dec t in let kc = next_opt t in
     let nonce = next_opt t in let ent = next_opt t in
     let bl = (match next t with "0" -> Some false | "1" -> Some true | _ -> None) in
+    let pegin = next_int t = 1 in
     { vi_txid = txid; vi_index = index; vi_seq = seq; vi_value = value; vi_vcommit = vc; vi_keys = keys; vi_kcommit = kc;
-      vi_nonce = nonce; vi_entropy = ent; vi_blinded = bl }) in
+      vi_nonce = nonce; vi_entropy = ent; vi_blinded = bl; vi_pegin = pegin }) in
   let outs = next_list t (fun t ->
     let value = next_dec t in let asset = next_hex t in let script = next_hex t in
     let bkey = next_hex t in let bidx = next_dec t in
@@ -141,7 +142,7 @@ let dump_v2pkt (p : v2pkt) : string =
     add (hex_of_bytes i.vi_txid); add (dec_of_n i.vi_index); add (dec_of_n i.vi_seq);
     add (dec_of_n i.vi_value); add (tok_of_opt i.vi_vcommit); add (dec_of_n i.vi_keys); add (tok_of_opt i.vi_kcommit);
     add (tok_of_opt i.vi_nonce); add (tok_of_opt i.vi_entropy);
-    add (match i.vi_blinded with None -> "n" | Some true -> "1" | Some false -> "0")) p.v2_ins;
+    add (match i.vi_blinded with None -> "n" | Some true -> "1" | Some false -> "0"); add (b2s i.vi_pegin)) p.v2_ins;
   add (string_of_int (Stdlib.List.length p.v2_outs));
   Stdlib.List.iter (fun o ->
     add (dec_of_n o.vo_value); add (hex_of_bytes o.vo_asset); add (hex_of_bytes o.vo_script); add (hex_of_bytes o.vo_bkey);
@@ -154,8 +155,8 @@ let iss_dump (s : issuance option) : string =
   | None -> "0"
   | Some s -> "1/" ^ hex_of_bytes s.iss_nonce ^ "/" ^ hex_of_bytes s.iss_entropy ^ "/" ^ hex_of_bytes s.iss_amount ^ "/" ^ hex_of_bytes s.iss_token
 
-let tx_view (f : v2in -> issuance option) (p : v2pkt) : string =
-  let ins = Stdlib.List.map (fun i -> iss_dump (f i)) p.v2_ins in
+let tx_view (g : v2in -> bool) (f : v2in -> issuance option) (p : v2pkt) : string =
+  let ins = Stdlib.List.map (fun i -> b2s (g i) ^ ":" ^ iss_dump (f i)) p.v2_ins in
   let outs = Stdlib.List.map (fun o -> let x = unsigned_output o in
     hex_of_bytes x.o_asset ^ "/" ^ hex_of_bytes x.o_value ^ "/" ^ hex_of_bytes x.o_script ^ "/" ^ hex_of_bytes x.o_nonce) p.v2_outs in
   Stdlib.String.concat "," (ins @ ["o"] @ outs)
@@ -181,7 +182,7 @@ let cmd_issv2 t =
   let p = read_v2pkt t in
   let (ok, p') = v2_step t op p in
   Printf.printf "res=%s pkt=%s utx=%s ext=%s get=%s\n" (if ok then "ok" else "err") (dump_v2pkt p')
-    (tx_view unsigned_issuance p') (tx_view extract_issuance p') (v2_getters p')
+    (tx_view unsigned_pegin unsigned_issuance p') (tx_view extract_pegin extract_issuance p') (v2_getters p')
 
 let cmd_issh2 t =
   let p = ref (read_v2pkt t) in
@@ -192,7 +193,7 @@ let cmd_issh2 t =
     let (ok, p') = v2_step t op !p in
     p := p';
     out := Printf.sprintf "r%d=%s p%d=%s u%d=%s e%d=%s g%d=%s" i (if ok then "ok" else "err") i (dump_v2pkt p')
-             i (tx_view unsigned_issuance p') i (tx_view extract_issuance p') i (v2_getters p') :: !out
+             i (tx_view unsigned_pegin unsigned_issuance p') i (tx_view extract_pegin extract_issuance p') i (v2_getters p') :: !out
   done;
   print_endline (Stdlib.String.concat " " (Stdlib.List.rev !out))
 
